@@ -135,20 +135,13 @@ func applyStringConstraints(constraints *validate.FieldRules, schema *base.Schem
 	if len(stringConstraints.GetIn()) > 0 {
 		schema.Enum = make([]*yaml.Node, 0, len(stringConstraints.GetIn()))
 		for _, value := range stringConstraints.GetIn() {
-			schema.Enum = append(schema.Enum, &yaml.Node{
-				Kind:  yaml.ScalarNode,
-				Value: value,
-			})
+			schema.Enum = append(schema.Enum, exampleNode(value))
 		}
 	}
 
-	// Const value
+	// Const value (an empty string is tagged, see exampleNode)
 	if stringConstraints.HasConst() {
-		val := stringConstraints.GetConst()
-		schema.Const = &yaml.Node{
-			Kind:  yaml.ScalarNode,
-			Value: val,
-		}
+		schema.Const = exampleNode(stringConstraints.GetConst())
 	}
 }
 
